@@ -78,6 +78,7 @@ func main() {
 	out := flag.String("out", "/tmp/mut", "")
 	funcsFile := flag.String("funcs", "", "")
 	maxPer := flag.Int("max", 10, "max mutants per function")
+	phase := flag.Int("phase", 0, "0: sites 0, step, 2·step…; 1: sites step/2, step/2+step… (a second, disjoint sample)")
 	flag.Parse()
 	var targets []target
 	f, err := os.Open(*funcsFile)
@@ -218,7 +219,14 @@ func main() {
 				if len(sites) > *maxPer {
 					step = (len(sites) + *maxPer - 1) / *maxPer
 				}
-				for si := 0; si < len(sites); si += step {
+				start := 0
+				if *phase == 1 {
+					if step < 2 {
+						continue // every site was already taken in phase 0
+					}
+					start = step / 2
+				}
+				for si := start; si < len(sites); si += step {
 					s := sites[si]
 					undo := s.apply()
 					var buf bytes.Buffer
